@@ -19,6 +19,10 @@ CHECKS['C04'] = dict(engine='histmc', category='fault_enumeration', section='3/C
    technique='exhaustive crash-point enumeration at the key-value write interface over every state of a bounded breadth-first history search, plus explicit-state search with a restart operation inserted at every position',
    text='Part A: the C03 search with a Reopen operation in the alphabet (depth 5 quick / 7 thorough): a restart at every position of every history, everything observed afterwards must equal the never-stopped model. Part B: for every state of a depth-4 (6) search x every mutating call x a crash before each top-level KV write of the call (write count measured per call, up to 11 for DeleteGraph), the surviving store is reopened and must be self-consistent (every observation equals that of the graph rebuilt from the surviving elements), keep every acknowledged element, and leave each addressed element in its before- or after-state.',
    note='Crash granularity is the KVInterface write call (atomic per the property text); memkv under a counting fault wrapper; reopen = new kvgraph on the same store. Components already corrupted by a known C03 defect in the pre-crash history are masked.')
+CHECKS['C09'] = dict(engine='histmc', category='model_checking', section='3/C09',
+   technique='explicit-state breadth-first search over index operation histories on the real KVIndex, every query compared with a brute-force scan of the model documents after every step',
+   text='Every history over {AddField, RemoveField (x, y.z), AddDoc (2 ids x string/negative/zero/fraction/large values, missing fields), RemoveDoc} up to depth 5 (quick) / 6 (thorough) on a fresh KVIndex over memkv; after each step term matches, term sets, term counts, string term counts, numeric min/max, numeric range counts on a sign-crossing grid, ascending numeric listing and field listing are compared with a scan of the live documents.',
+   note='Range bounds are probed away from term values (boundary convention undocumented); min/max only when a numeric value exists; queries on unregistered fields not observed. Known deviations (no re-index on AddField, stale entries on replacement) are followed with masks so deeper states stay covered.')
 NA_REASON = 'check not built yet in this session (planned in DESIGN.md section 3); nothing is claimed for it'
 
 m = {
